@@ -255,6 +255,8 @@ func runC05(w *World, r *Report) {
 		}
 	}
 
+	shareRule(w, r, "C05.conversion-tables-read-only", "converting a checkpoint writes nothing into the compiled graph's tables (the stream pairs by sender are shared by every receiver and every later run): per-edge overrides go into a copy", 0, "C09", "C09.read-only-at-runtime")
+
 	// ---- load-errors-kept
 	r.Rule("C05.load-errors-kept", "on the save / load path (package compose, internal/serialization) a success return after an error-yielding call is reached only where that error was tested nil: a checkpoint that cannot be read back is an error of the resume, never 'no checkpoint, start over' (shared with C13.no-dropped-error)", 1)
 	{
